@@ -566,6 +566,8 @@ def run(ctx) -> None:
     ctx.guard(r11_11)
     ctx.guard(r11_12)
     from .c12 import r12_2
-    ctx.guard_as("R11.13", r12_2)  # "importing a JWK then exporting it returns the members that were given": exports never alias the key's dict
+    ctx.guard_as("R11.13", r12_2)
+    from .c19 import r19_4_5
+    ctx.guard_as("R11.14", r19_4_5)  # "undecodable values are refused": JWK integers are read through the strict base64url decoder  # "importing a JWK then exporting it returns the members that were given": exports never alias the key's dict
     ctx.assume("pyca serialisation (PEM / DER / numbers) is faithful and validates points and RSA parameters")
     ctx.note("undecided remainder: equality of key material across PEM / DER / JWK for every key value")
